@@ -1804,7 +1804,7 @@ int x509_certs_verify(const uint8_t *certs, size_t certslen, int certs_type,
 	while (certslen)
 	VERIF_LOOP_ASSIGNS(certs, certslen, cacert, cacertlen, path_len_constraint, cert, certlen, path_len,
 		verif_c_chk_calls, verif_c_chk_type0, verif_c_chk_type1, verif_c_chk_nonca, verif_c_plc_ci, verif_c_chk_last, verif_c_chk_first, verif_c_chk_second,
-		verif_c_vfy_calls, verif_c_vfy_bad, verif_c_vfy_prev_parent)
+		verif_c_vfy_calls, verif_c_vfy_bad, verif_c_vfy_prev_parent, verif_c_vfy_second)
 	VERIF_LOOP_INVARIANT(certslen <= VERIF_LOOP_ENTRY(certslen))
 	VERIF_LOOP_INVARIANT(certs == VERIF_LOOP_ENTRY(certs) + (VERIF_LOOP_ENTRY(certslen) - certslen))
 	VERIF_LOOP_INVARIANT(0 <= path_len && path_len <= depth + 1)
@@ -1929,7 +1929,25 @@ int x509_certs_verify_tlcp(const uint8_t *certs, size_t certslen, int certs_type
 		return -1;
 	}
 
-	while (certslen) {
+	while (certslen)
+	VERIF_LOOP_ASSIGNS(certs, certslen, cacert, cacertlen, path_len_constraint, cert, certlen, path_len,
+		verif_c_chk_calls, verif_c_chk_type0, verif_c_chk_type1, verif_c_chk_nonca, verif_c_plc_ci, verif_c_chk_last, verif_c_chk_first, verif_c_chk_second,
+		verif_c_vfy_calls, verif_c_vfy_bad, verif_c_vfy_prev_parent, verif_c_vfy_second)
+	VERIF_LOOP_INVARIANT(certslen <= VERIF_LOOP_ENTRY(certslen))
+	VERIF_LOOP_INVARIANT(certs == VERIF_LOOP_ENTRY(certs) + (VERIF_LOOP_ENTRY(certslen) - certslen))
+	VERIF_LOOP_INVARIANT(0 <= path_len && path_len <= depth + 1)
+	VERIF_LOOP_INVARIANT(verif_c_chk_calls == (unsigned)path_len + 2 && verif_c_vfy_calls == (path_len == 0 ? 0u : (unsigned)path_len + 1))
+	VERIF_LOOP_INVARIANT(verif_c_chk_type0 == VERIF_LOOP_ENTRY(verif_c_chk_type0) && verif_c_chk_first == VERIF_LOOP_ENTRY(verif_c_chk_first)
+		&& verif_c_chk_type1 == VERIF_LOOP_ENTRY(verif_c_chk_type1) && verif_c_chk_second == VERIF_LOOP_ENTRY(verif_c_chk_second))
+	VERIF_LOOP_INVARIANT(verif_c_chk_nonca == 0 && verif_c_vfy_bad == 0 && (path_len == 0 || verif_c_vfy_second == 1))
+	VERIF_LOOP_INVARIANT(path_len == 0 ? ((size_t)cert == verif_c_chk_first && (size_t)kenc_cert == verif_c_chk_second)
+		: ((size_t)cert == verif_c_chk_last && verif_c_vfy_prev_parent == (size_t)cert))
+	VERIF_LOOP_INVARIANT(VERIF_SAME_OBJECT(cert, certs) && certlen >= 2 && certlen <= 0x7fffffff && VERIF_OFFSET(cert) + certlen <= VERIF_OFFSET(certs))
+	VERIF_LOOP_INVARIANT(VERIF_SAME_OBJECT(kenc_cert, certs) && kenc_certlen >= 2 && kenc_certlen <= 0x7fffffff && VERIF_OFFSET(kenc_cert) + kenc_certlen <= VERIF_OFFSET(certs))
+	VERIF_LOOP_INVARIANT(verif_c_ci < 2 || verif_c_ci >= verif_c_chk_calls || ((verif_c_ci != 2 || verif_c_plc_ci == 0)
+		&& (verif_c_plc_ci < 0 || (int)verif_c_ci - 2 <= verif_c_plc_ci) && (int)verif_c_ci - 2 <= depth))
+	VERIF_LOOP_DECREASES(certslen)
+	{
 
 		if (x509_cert_from_der(&cacert, &cacertlen, &certs, &certslen) != 1) {
 			error_print();
